@@ -183,6 +183,44 @@ theorem c03_dispatcher_shape :
     Gen.C03.popErrorReason = "statusReasonNoReadyEndpoints" ∧ Gen.C03.popErrorReturns = true ∧
     Gen.C03.forwardHostFromPicked = true ∧ Gen.C03.transportFromPicked = true := by decide
 
+/-! ## requests racing with a Sync that changes the server set — finding C03-lb-reset-race
+
+The theorems above treat `sync` and `pop` as atomic ops.  On the real code a `Pop` can run *while* `syncEndpoints` resets
+the load-balancer map.  Full statement: no interleaving of pickers with resets makes the process die.  It is **false** of
+the code as long as the reset is the assignment `c.loadbalancer = sync.Map{}` (regenerated fact
+`Gen.C03.lbResetAssignsNewMap`): witness below, reproduced on the real code by the harness's race stream
+(`fatal error: sync: unlock of unlocked mutex`, findings/C03-lb-reset-race).  It is proved for histories in which no
+reset overlaps a pick, and for the repair that empties the map in place. -/
+
+/-- the full statement for a reset of the given kind -/
+def NoFatal (inPlace : Bool) : Prop := ∀ acts : List RaceAct, (raceRun inPlace acts).fatal = false
+
+/-- the statement about the code as it is now -/
+def CodeNoFatal : Prop := NoFatal (!Gen.C03.lbResetAssignsNewMap)
+
+/-- refutation by witness: picker locks, Sync overwrites the map, picker unlocks -/
+theorem c03_lb_reset_by_assignment_is_fatal : ¬ NoFatal false := by
+  intro h
+  have := h [.popLock 0, .syncReset, .popUnlock 0]
+  revert this
+  decide
+
+/-- the repair (`Range` + `Delete` in place) satisfies the full statement -/
+theorem c03_lb_reset_in_place_is_safe : NoFatal true :=
+  fun acts => (raceRun_ok true acts (Or.inl rfl)).1
+
+/-- partial: whatever the reset does, histories in which no reset runs concurrently with the pickers never die -/
+theorem c03_no_fatal_partial (inPlace : Bool) (acts : List RaceAct) (h : RaceAct.syncReset ∉ acts) :
+    (raceRun inPlace acts).fatal = false :=
+  (raceRun_ok inPlace acts (Or.inr h)).1
+
+/-- where the current code stands: the full statement holds of it exactly when the reset is no longer an assignment -/
+theorem c03_code_no_fatal_iff : CodeNoFatal ↔ Gen.C03.lbResetAssignsNewMap = false := by
+  unfold CodeNoFatal
+  cases Gen.C03.lbResetAssignsNewMap with
+  | false => exact ⟨fun _ => rfl, fun _ => c03_lb_reset_in_place_is_safe⟩
+  | true => exact ⟨fun h => absurd h c03_lb_reset_by_assignment_is_fatal, fun h => by cases h⟩
+
 /-! ## non-vacuity: concrete histories on which the hypotheses hold non-trivially -/
 
 section NonVacuous
